@@ -15,6 +15,7 @@ import (
 	"sort"
 	"strings"
 	"sync"
+	"time"
 )
 
 // Fail is an oracle failure: the property statement itself is contradicted by what the code did.
@@ -41,6 +42,9 @@ type Run struct {
 	fails    []Fail
 	notes    map[string]any
 	Exhaust  bool
+	// CrashOnly: keep only oracle failures that are crashes / hangs (reason starts with "crash" or "hang");
+	// used when generators of other properties are re-run under C10's oracle
+	CrashOnly bool
 }
 
 func NewRun(prop, tier string, seed uint64, dir string) (*Run, error) {
@@ -91,6 +95,9 @@ func (r *Run) Emit(caseLine, observed, oracleFail, key string, nontrivial bool, 
 			s = s[:600] + "…"
 		}
 		r.samples = append(r.samples, s+"  =>  "+trunc(observed, 300))
+	}
+	if r.CrashOnly && !(strings.HasPrefix(oracleFail, "crash") || strings.HasPrefix(oracleFail, "hang")) {
+		oracleFail = ""
 	}
 	if oracleFail != "" {
 		if len(r.fails) < 200 {
@@ -145,6 +152,22 @@ func Guard(f func() string) (res string, stack string) {
 		}
 	}()
 	return f(), ""
+}
+
+// GuardTimeout is Guard with a watchdog: a call that has not returned after d is reported as ("hang", "").
+func GuardTimeout(d time.Duration, f func() string) (string, string) {
+	type res struct{ r, st string }
+	ch := make(chan res, 1)
+	go func() {
+		r, st := Guard(f)
+		ch <- res{r, st}
+	}()
+	select {
+	case x := <-ch:
+		return x.r, x.st
+	case <-time.After(d):
+		return "hang", ""
+	}
 }
 
 func Hex(b []byte) string {
